@@ -235,11 +235,149 @@ Definition is_reached (o : outcome) : bool :=
   match o with Result r => r_reached r | RaisedZeroDivision => false end.
 
 (* ---------------------------------------------------------------------- *)
+(* one QuorumSensing / EmergencyQuorum instance over time                     *)
+
+(* AgentProfile: agent name (an id), weight, reliability_score, votes_cast,
+   correct_votes *)
+Record profile := mkProfile {
+  p_id : Z; p_weight : Q; p_rel : Q; p_cast : Z; p_correct : Z }.
+
+(* what run_vote and the aggregators read from `self`, plus what the public
+   mutators and run_vote itself write: strategy / custom_threshold /
+   min_voters (the config), enable_reliability_tracking, the colony, and the
+   votes (agent id, vote type) of the last recorded result
+   (self._vote_history[-1], read by update_all_reliability).  The instance keeps
+   no other state that a later verdict depends on. *)
+Record qstate := mkState {
+  s_cfg : config; s_tracking : bool; s_colony : list profile;
+  s_last : option (list (Z * kind)) }.
+
+Inductive op :=
+| OVote (script : nat -> behaviour)          (* run_vote; voter i's agent does script i *)
+| OAdd (id : Z) (w : Q)                      (* add_agent(name, weight) *)
+| ORemove (id : Z)                           (* remove_agent(name) *)
+| OSetWeight (id : Z) (w : Q)                (* set_agent_weight(name, weight) *)
+| OSetStrategy (s : strategy) (t : option Q) (* set_strategy(strategy, threshold) *)
+| OSetMinVoters (k : Z)                      (* quorum.min_voters = k *)
+| OUpdateRel (id : Z) (ok : bool)            (* update_reliability(name, was_correct) *)
+| OUpdateAll (d : kind).                     (* update_all_reliability(correct_decision) *)
+
+Fixpoint voters_from (i : nat) (colony : list profile) (script : nat -> behaviour) : list voter :=
+  match colony with
+  | [] => []
+  | p :: r => mkVoter (script i) (p_weight p) (p_rel p) :: voters_from (S i) r script
+  end.
+Definition voters_of (colony : list profile) (script : nat -> behaviour) : list voter :=
+  voters_from 0 colony script.
+
+(* profile.votes_cast += 1 for every voter whose vote was produced without an exception *)
+Fixpoint cast_from (i : nat) (colony : list profile) (script : nat -> behaviour) : list profile :=
+  match colony with
+  | [] => []
+  | p :: r =>
+      match script i with
+      | Acted _ _ => mkProfile (p_id p) (p_weight p) (p_rel p) (p_cast p + 1) (p_correct p)
+      | Raised => p
+      end :: cast_from (S i) r script
+  end.
+
+Fixpoint remove_first (id : Z) (colony : list profile) : list profile :=
+  match colony with
+  | [] => []
+  | p :: r => if (p_id p =? id)%Z then r else p :: remove_first id r
+  end.
+
+Fixpoint update_first (id : Z) (f : profile -> profile) (colony : list profile) : list profile :=
+  match colony with
+  | [] => []
+  | p :: r => if (p_id p =? id)%Z then f p :: r else p :: update_first id f r
+  end.
+
+(* update_reliability on the matching profile *)
+Definition learn (ok : bool) (p : profile) : profile :=
+  let c := (if ok then p_correct p + 1 else p_correct p)%Z in
+  mkProfile (p_id p) (p_weight p)
+            (if (0 <? p_cast p)%Z then inject_Z c / inject_Z (p_cast p) else p_rel p)
+            (p_cast p) c.
+
+Definition set_colony (st : qstate) (c : list profile) : qstate :=
+  mkState (s_cfg st) (s_tracking st) c (s_last st).
+
+Definition step (legacy : bool) (st : qstate) (o : op) : qstate * option outcome :=
+  match o with
+  | OVote script =>
+      let out := run_vote legacy (s_cfg st) (voters_of (s_colony st) script) in
+      let colony' := cast_from 0 (s_colony st) script in
+      let last' :=
+        match out with
+        | Result r => Some (combine (map p_id (s_colony st)) (map v_kind (r_votes r)))
+        | RaisedZeroDivision => s_last st        (* raised before the result was recorded *)
+        end in
+      (mkState (s_cfg st) (s_tracking st) colony' last', Some out)
+  | OAdd id w => (set_colony st (s_colony st ++ [mkProfile id w 1 0 0]), None)
+  | ORemove id => (set_colony st (remove_first id (s_colony st)), None)
+  | OSetWeight id w =>
+      (set_colony st (update_first id
+         (fun p => mkProfile (p_id p) w (p_rel p) (p_cast p) (p_correct p)) (s_colony st)), None)
+  | OSetStrategy s t =>
+      (mkState (mkConfig s t (c_min_voters (s_cfg st))) (s_tracking st) (s_colony st) (s_last st), None)
+  | OSetMinVoters k =>
+      (mkState (mkConfig (c_strategy (s_cfg st)) (c_custom (s_cfg st)) k)
+               (s_tracking st) (s_colony st) (s_last st), None)
+  | OUpdateRel id ok =>
+      (if s_tracking st then set_colony st (update_first id (learn ok) (s_colony st)) else st, None)
+  | OUpdateAll d =>
+      (if s_tracking st then
+         match s_last st with
+         | Some votes =>
+             set_colony st
+               (fold_left (fun c (iv : Z * kind) => update_first (fst iv) (learn (kind_eqb (snd iv) d)) c)
+                          votes (s_colony st))
+         | None => st
+         end
+       else st, None)
+  end.
+
+(* every vote of a history: the state it was taken in, the script, the outcome *)
+Fixpoint trace (legacy : bool) (st : qstate) (ops : list op)
+  : list (qstate * (nat -> behaviour) * outcome) :=
+  match ops with
+  | [] => []
+  | o :: rest =>
+      let st' := fst (step legacy st o) in
+      match o with
+      | OVote script =>
+          (st, script, run_vote legacy (s_cfg st) (voters_of (s_colony st) script))
+            :: trace legacy st' rest
+      | _ => trace legacy st' rest
+      end
+  end.
+
+Fixpoint final_state (legacy : bool) (st : qstate) (ops : list op) : qstate :=
+  match ops with
+  | [] => st
+  | o :: rest => final_state legacy (fst (step legacy st o)) rest
+  end.
+
+Definition run_history (legacy : bool) (st : qstate) (ops : list op) : list outcome :=
+  map (fun t => snd t) (trace legacy st ops).
+
+Fixpoint init_colony (i : Z) (ws : list (Q * Q)) : list profile :=
+  match ws with
+  | [] => []
+  | (w, r) :: rest => mkProfile i w r 0 0 :: init_colony (i + 1) rest
+  end.
+Definition init_state (cfg : config) (tracking : bool) (ws : list (Q * Q)) : qstate :=
+  mkState cfg tracking (init_colony 0 ws) None.
+
+(* ---------------------------------------------------------------------- *)
 (* correspondence                                                           *)
 
 Definition kind_code (k : kind) : Z :=
   match k with Permit => 0 | Block => 1 | Abstain => 2 | Defer => 3 end.
 Definition q_obs (q : Q) : list Z := let r := Qred q in [Qnum r; Zpos (Qden r)].
+(* weights that went through the (float) reliability division are observed on a 2^-30 grid *)
+Definition q_grid (q : Q) : Z := Qfloor (q * inject_Z (2 ^ 30) + (1 # 2)).
 
 Definition obs_of (o : outcome) : list (list Z) :=
   match o with
@@ -247,13 +385,23 @@ Definition obs_of (o : outcome) : list (list Z) :=
   | Result r =>
       [ [1%Z; (if r_reached r then 1 else 0)%Z; kind_code (r_decision r);
          r_total r; r_permit r; r_block r; r_abstain r; len (r_votes r)] ]
-      ++ map (fun v => kind_code (v_kind v) :: q_obs (v_weight v) ++ q_obs (v_conf v)) (r_votes r)
+      ++ map (fun v => kind_code (v_kind v) :: q_grid (v_weight v) :: q_obs (v_conf v)) (r_votes r)
   end.
 
-Definition case := (config * list voter)%type.
+Definition obs_state (st : qstate) : list (list Z) :=
+  [(-2)%Z; len (s_colony st)]
+  :: map (fun p => [p_id p; p_cast p; p_correct p; q_grid (p_rel p); q_grid (p_weight p)]) (s_colony st).
 
-Definition run_case (c : case) : list (list Z) :=
-  let '(cfg, voters) := c in obs_of (run_vote false cfg voters).
+(* script given as a list; voters beyond it raise *)
+Definition script_of (l : list behaviour) : nat -> behaviour := fun i => nth i l Raised.
 
-Definition run_case_legacy (c : case) : list (list Z) :=
-  let '(cfg, voters) := c in obs_of (run_vote true cfg voters).
+(* config, enable_reliability_tracking, initial (weight, reliability) per agent, operations *)
+Definition case := (config * bool * list (Q * Q) * list op)%type.
+
+Definition run_case_gen (legacy : bool) (c : case) : list (list Z) :=
+  let '(cfg, tracking, ws, ops) := c in
+  let st := init_state cfg tracking ws in
+  concat (map obs_of (run_history legacy st ops)) ++ obs_state (final_state legacy st ops).
+
+Definition run_case (c : case) : list (list Z) := run_case_gen false c.
+Definition run_case_legacy (c : case) : list (list Z) := run_case_gen true c.
